@@ -5,6 +5,7 @@ import (
 	"go/ast"
 	"go/token"
 	"go/types"
+	"sort"
 	"strings"
 
 	"golang.org/x/tools/go/ssa"
@@ -58,6 +59,7 @@ func checkC11(c *Ctx, r *Report) {
 	checkAztecModeMessage(c, r)
 	checkAztecCut(c, r)
 	checkAztecDecoderState(c, r)
+	checkAztecReadCode(c, r, "M-READCODE")
 	// the six fields' constants (shared with C04)
 	checkGFConstants(c, r)
 	r.Note("not decided: the spiral read-out order of extractBits, the detector (bull's-eye location, orientation), rendering/scale tolerance; totality clauses (nil ECI, negative capacity, result pairing) are decided under C06")
@@ -911,4 +913,108 @@ func checkAztecDecoderState(c *Ctx, r *Report) {
 		p, ok := val.(*ssa.Parameter)
 		return ok && p.Parent() == f
 	})
+}
+
+// M-READCODE: every bit-field read stays inside the bit slice
+var frozenReadCode = map[string]string{
+	"(*aztec/decoder.Decoder).getEncodedData#5": "the digit loop reads n fields of 4 bits after the test endIndex-index < 4*n has excluded a short tail; index advances by 4 per field and n counts down",
+	"(*aztec/decoder.Decoder).correctBits#0":    "codeword i starts at len % size + i * size for i < len / size (decided by S-AZCUT for all 36 sizes), so start + size <= len",
+}
+
+func checkAztecReadCode(c *Ctx, r *Report, rule string) {
+	r.Rule(rule, "every readCode(bits, start, n) of the Aztec decoder stays inside the slice: a test of len(bits) - start against a bound >= n, made on the very value of start that is passed (not on an earlier position), dominates the call on its passing side, or n is exactly len(bits) - start; two sites rest on loop arithmetic and are frozen with their reasons", 8)
+	sp := c.ssaPkg("aztec/decoder")
+	if sp == nil {
+		r.AnchorLost(rule, "aztec/decoder", "package not loaded")
+		return
+	}
+	isLenOf := func(v, b ssa.Value) bool {
+		call, ok := v.(*ssa.Call)
+		if !ok {
+			return false
+		}
+		bi, ok := call.Call.Value.(*ssa.Builtin)
+		return ok && bi.Name() == "len" && len(call.Call.Args) == 1 && call.Call.Args[0] == b
+	}
+	var fs []*ssa.Function
+	for f := range c.allFuncs {
+		if f.Pkg == sp && f.Blocks != nil {
+			fs = append(fs, f)
+		}
+	}
+	sort.Slice(fs, func(i, j int) bool { return fs[i].String() < fs[j].String() })
+	for _, f := range fs {
+		ord := 0
+		for _, b := range f.Blocks {
+			for _, in := range b.Instrs {
+				call, ok := in.(*ssa.Call)
+				if !ok {
+					continue
+				}
+				g := call.Call.StaticCallee()
+				if g == nil || g.Name() != "readCode" || g.Pkg != sp || len(call.Call.Args) != 3 {
+					continue
+				}
+				key := fmt.Sprintf("%s#%d", shortFn(f), ord)
+				ord++
+				bits, start, n := call.Call.Args[0], call.Call.Args[1], call.Call.Args[2]
+				isRest := func(v ssa.Value) bool {
+					bo, ok := v.(*ssa.BinOp)
+					return ok && bo.Op == token.SUB && isLenOf(bo.X, bits) && bo.Y == start
+				}
+				proven, why := false, ""
+				if isRest(n) {
+					proven, why = true, "reads exactly the rest of the slice"
+				}
+				for _, blk := range f.Blocks {
+					if proven || len(blk.Instrs) == 0 {
+						break
+					}
+					iff, ok := blk.Instrs[len(blk.Instrs)-1].(*ssa.If)
+					if !ok {
+						continue
+					}
+					bo, ok := iff.Cond.(*ssa.BinOp)
+					if !ok || !isRest(bo.X) {
+						continue
+					}
+					// rest op K: on which edge is rest >= K (+1)?
+					side, plus := -1, int64(0)
+					switch bo.Op {
+					case token.LSS:
+						side = 1
+					case token.GEQ:
+						side = 0
+					case token.LEQ:
+						side, plus = 1, 1
+					case token.GTR:
+						side, plus = 0, 1
+					}
+					if side < 0 {
+						continue
+					}
+					succ := blk.Succs[side]
+					if len(succ.Preds) != 1 || !(succ == b || succ.Dominates(b)) {
+						continue
+					}
+					kc, kIsC := constIntOf(bo.Y)
+					nc, nIsC := constIntOf(n)
+					switch {
+					case kIsC && nIsC && kc+plus >= nc:
+						proven, why = true, fmt.Sprintf("dominating test leaves at least %d bits from this position", kc+plus)
+					case bo.Y == n:
+						proven, why = true, "dominating test of the rest against the very length read"
+					}
+				}
+				pos := c.pos(call.Pos())
+				if proven {
+					r.Pass(rule, key, pos, why)
+				} else if fr, ok := frozenReadCode[key]; ok {
+					r.Pass(rule, key, pos, "frozen: "+fr)
+				} else {
+					r.Fail(rule, key, pos, "violation", "no test of len(bits) - start, on the position that is passed, covers the bits read here: the read can run past the end of the slice")
+				}
+			}
+		}
+	}
 }
